@@ -247,20 +247,33 @@ func ParseParameters(query string) []oid.Oid {
 	// parameters since ony matches are returned by the positional
 	// parameter regex.
 	matches := QueryParameters.FindAllStringSubmatch(query, -1)
-	parameters := make([]oid.Oid, 0, len(matches))
+	total := 0
 	for _, match := range matches {
 		// NOTE: we have to check whether the returned match is a
 		// positional parameter or an un-positional parameter.
 		// SELECT * FROM users WHERE id = ?
 		if match[1] == "" {
-			parameters = append(parameters, 0)
+			total++
+			continue
 		}
 
-		position, _ := strconv.Atoi(match[1]) //nolint:errcheck
-		if position > len(parameters) {
-			parameters = parameters[:position]
+		// NOTE: the highest positional parameter defines the number of
+		// parameters, positions could be skipped or be defined in any order.
+		// Positions which do not fit the protocol are limited to the maximum
+		// number of arguments a prepared statement is able to have.
+		position, err := strconv.Atoi(match[1])
+		if err != nil || position > buffer.MaxPreparedStatementArgs {
+			position = buffer.MaxPreparedStatementArgs
+		}
+
+		if position > total {
+			total = position
 		}
 	}
 
-	return parameters
+	if total > buffer.MaxPreparedStatementArgs {
+		total = buffer.MaxPreparedStatementArgs
+	}
+
+	return make([]oid.Oid, total)
 }
